@@ -6,10 +6,17 @@
 pub open spec fn cpb_commit_ok<G, const N: usize>(b: CommitmentProofBuilder<G, N>, h: G, gs: Seq<G>, m: Seq<Scalar>, given: Seq<Option<Scalar>>) -> bool
     where G: Group<Scalar = Scalar>
 {
+    &&& cpb_commit_core(b, h, gs, m)
+    &&& forall|i: int| 0 <= i < N ==> (given[i] is Some ==> #[trigger] (*b.message_commitment_scalars)@[i] == given[i]->Some_0)
+}
+
+/// the part of the commit phase that does not depend on caller-chosen commitment scalars
+pub open spec fn cpb_commit_core<G, const N: usize>(b: CommitmentProofBuilder<G, N>, h: G, gs: Seq<G>, m: Seq<Scalar>) -> bool
+    where G: Group<Scalar = Scalar>
+{
     &&& (*b.msg.0)@ == m
     &&& b.commitment.0 == com(h, gs, m, b.message_blinding_factor.0)
     &&& b.scalar_commitment.0 == com(h, gs, (*b.message_commitment_scalars)@, b.blinding_factor_commitment_scalar)
-    &&& forall|i: int| 0 <= i < N ==> (given[i] is Some ==> #[trigger] (*b.message_commitment_scalars)@[i] == given[i]->Some_0)
 }
 
 /// response phase: first message copied, z_i = c·m_i + s_i, z_r = c·bf + s_r
@@ -20,17 +27,4 @@ pub open spec fn cp_response_ok<G, const N: usize>(p: CommitmentProof<G, N>, b: 
     &&& p.scalar_commitment == b.scalar_commitment
     &&& p.blinding_factor_response_scalar == resp(c, b.message_blinding_factor.0, b.blinding_factor_commitment_scalar)
     &&& forall|i: int| 0 <= i < N ==> #[trigger] (*p.message_response_scalars)@[i] == resp(c, (*b.msg.0)@[i], (*b.message_commitment_scalars)@[i])
-}
-
-/// Completeness of one commitment proof in terms of the two phase contracts: a proof whose commit phase and
-/// response phase are honest satisfies the verifier's equation under that challenge.  Broadcast so that it applies
-/// to proofs that only exist inside a struct literal.
-pub broadcast proof fn lemma_cp_complete<G: Group<Scalar = Scalar>, const N: usize>(p: CommitmentProof<G, N>, b: CommitmentProofBuilder<G, N>, c: Scalar, h: G, gs: Seq<G>, m: Seq<Scalar>, given: Seq<Option<Scalar>>)
-    requires #[trigger] cp_response_ok(p, b, c), #[trigger] cpb_commit_ok(b, h, gs, m, given), gs.len() == N, m.len() == N,
-        (*b.message_commitment_scalars)@.len() == N, (*p.message_response_scalars)@.len() == N,
-    ensures schnorr_accept(h, gs, p.commitment.0, p.scalar_commitment.0, p.blinding_factor_response_scalar, (*p.message_response_scalars)@, c),
-{
-    let cs = (*b.message_commitment_scalars)@;
-    lemma_schnorr_complete(h, gs, m, b.message_blinding_factor.0, cs, b.blinding_factor_commitment_scalar, c);
-    assert((*p.message_response_scalars)@ =~= resp_seq(c, m, cs));
 }
